@@ -20,6 +20,7 @@ def kindOf : Err → Kind
   | .econnreset | .sysConnreset => .transient         -- connection reset
   | .eof | .unexpectedEOF | .noProgress | .closedPipe | .shortBuffer | .ebadf | .closedFile => .broken
   | .netNoTimeout | .wrappedEOF | .other => .unknown
+  | .afPoll => .unknown        -- a failed poll is neither would-block / timeout / reset nor a closed socket
 
 def isBroken : Outcome → Bool
   | .err e => kindOf e == .broken
